@@ -397,8 +397,11 @@ def get_unified_classes(classes: List[TextXMetaClass]) -> Iterable[Cls]:
 
     # resolve inheritance
     for new_cls in new_classes.values():
+        # (a class of a referenced language is not a class of this meta-model)
         new_cls.inh_by = [
-            new_classes[inh._tx_fqn] for inh in new_cls.inh_by if hasattr(inh, "_tx_fqn")
+            new_classes[inh._tx_fqn]
+            for inh in new_cls.inh_by
+            if hasattr(inh, "_tx_fqn") and inh._tx_fqn in new_classes
         ]
         if new_cls.inh_from:
             assert hasattr(new_cls.inh_from, "_tx_fqn")
